@@ -1,6 +1,6 @@
 #!/bin/bash
 # (re)create a pristine scratch worktree of /repo's HEAD for mutant runs: /tmp/wt/scratch
 # mutants are applied THERE (YVM_REPO=/tmp/wt/scratch), never in /repo
-S=/tmp/wt/scratch
+S=${YVM_SCRATCH:-/tmp/wt/scratch}
 if [ -d $S ]; then git -C $S checkout -q --detach $(git -C /repo rev-parse HEAD) 2>/dev/null && git -C $S reset -q --hard && git -C $S clean -qfd; else git -C /repo worktree add -q --detach $S HEAD; fi
 echo $S
